@@ -17,7 +17,7 @@ from .. import refmodel as R
 from .. import gen as G
 
 PID = 'C09'
-RULE = ('cases = (closure class or alias, hard-core flag, grid length 1-2048, gamma of scale 1e-4..50 with both signs, potential kind '
+RULE = ('cases = (closure class or alias, hard-core flag, grid length 1-2048, gamma of scale 1e-4..50 with both signs (10 % integer-dtype arrays), potential kind '
         'finite random | hard-core step + tail | zero | weak, sigma below/inside/on/above the grid); each case runs the direct call, '
         'permuted/subsampled/one-element-at-a-time calls, a re-use of the same object with another potential and sigma, the alias, a read-only replica and the weak-coupling limit; non-trivial = gamma '
         'not identically zero and potential not identically zero; distinct = distinct case digests')
@@ -129,7 +129,8 @@ def cases(ctx):
         yield {'clo': NAMES[it % 4], 'hc': bool(rng.random() < 0.6), 'alias': bool(rng.random() < 0.4),
                'L': int(rng.choice([1, 2, 3, 17, 64, 100, 256, int(rng.integers(1, 2049))])) if ctx.thorough() else int(rng.choice([1, 2, 3, 17, 64, 100, 256, int(rng.integers(1, 400))])),
                'gscale': float(10 ** rng.uniform(-4, np.log10(50))), 'pot': str(rng.choice(['finite', 'step', 'zero', 'weak', 'steptail'])),
-               'sig': str(rng.choice(['inside', 'ongrid', 'below', 'above', 'inside'])), 'seed': int(rng.integers(0, 2 ** 31))}
+               'sig': str(rng.choice(['inside', 'ongrid', 'below', 'above', 'inside'])), 'seed': int(rng.integers(0, 2 ** 31)),
+               'gdtype': 'int' if rng.random() < 0.1 else 'float'}
 
 
 def run_case(ctx, case):
@@ -149,6 +150,9 @@ def run_case(ctx, case):
     gam = rng.normal(size=L) * case['gscale']
     if rng.random() < 0.2:
         gam = np.abs(gam) * float(rng.choice([-1, 1]))
+    if case.get('gdtype') == 'int':
+        # an integer array is a real array too (e.g. the all-zero first guess np.zeros(n, dtype=int))
+        gam = np.round(gam).astype(np.int64) if case['gscale'] > 1 else np.zeros(L, dtype=np.int64)
     pk = case['pot']
     if pk == 'finite':
         u = rng.normal(size=L) * float(10 ** rng.uniform(-2, 1))
@@ -246,10 +250,11 @@ def run_case(ctx, case):
                     else:
                         ctx.violation('closure:%s-weak-limit' % k, '%s: |c+u| = %.3g exceeds the second-order bound %.3g at eps=%g' % (cname, np.abs(o + eps * b)[bad].max(), bound[bad].max(), eps))
                     break
-    if np.any(gam != 0) and np.any(u != 0):
+    if (np.any(gam != 0) or gam.dtype != float) and np.any(u != 0):
         ctx.nontrivial(case)
     ctx.count('closure', '%s%s' % (case['clo'], 'hc' if hc else ''))
     ctx.count('potential_kind', pk)
     ctx.count('sigma_kind', sk)
+    ctx.count('gamma_dtype', str(gam.dtype))
     ctx.sample({'closure': cname, 'hard_core': hc, 'L': L, 'dr': dr, 'sigma': sigma, 'gamma_scale': case['gscale'], 'potential': pk,
                 'gamma_head': gam[:3], 'u_head': u[:3], 'c_head': out[:3]}, limit=4)
